@@ -18,8 +18,11 @@ func rulesC15(c *Ctx, r *Report) {
 	r.assume("encoding/json round-trips map[byte]*Trie through the exported mirror field")
 	e := effFor(c)
 	n := 0
-	for _, name := range []string{"(*Trie).Has", "(*Trie).ForEach", "(*Trie).keys", "(*Trie).MarshalJSON"} {
+	for _, name := range []string{"(*Trie).Has", "(*Trie).ForEach", "role:trie.keys", "(*Trie).MarshalJSON"} {
 		f := c.fn("trie", name)
+		if strings.HasPrefix(name, "role:") {
+			f = c.role(strings.TrimPrefix(name, "role:"))
+		}
 		if f == nil {
 			r.undecided("PURE", "trie."+name, "anchor", "", "observer not found")
 			continue
@@ -198,8 +201,8 @@ func partitionFlowFrom(f *ssa.Function, start *ssa.BasicBlock, isTerm func(ssa.V
 }
 
 func rulesTrieKeys(c *Ctx, r *Report) {
-	f := c.fn("trie", "(*Trie).keys")
-	where := "trie.(*Trie).keys"
+	f := c.role("trie.keys")
+	where := "trie.(keys helper of ForEach)"
 	if f == nil {
 		r.undecided("KEYS-ALL", where, "anchor", "", "keys not found")
 		return
